@@ -19,7 +19,7 @@ PROP_TYPES = [1, 2, 3, 4, 5, 6, 7, 8, 9, 10, 0x19, 0x1A, 0x20, 0x21, 0x44]
 T_STRING, T_TIMESTAMP, T_BOOL = 0x20, 0x44, 0x21
 
 NAME_POOL = ["g", "c", "Group", "a b", "it's", "sl/ash", "", "ünï", "日本", "'", "//", "c1", "c2", "x" * 9, "\U0001F600z", "rack'/'slot", "raw'/", "TDSm"]
-PROP_NAMES = ["p", "unit_string", "wf_increment", "名", "NI_x", "q q", ""]
+PROP_NAMES = ["p", "unit_string", "wf_increment", "名", "NI_x", "q q", "", "\ufeffp"]
 
 
 def path_of(group=None, channel=None):
@@ -176,7 +176,7 @@ class FileGen:
             return []
         pieces = [b""] * n
         remaining = nbytes
-        units = [b"a", b"Z", b" ", "é".encode(), "日".encode(), "\U0001F600".encode(), b"'", b"/", b"\x00"]
+        units = [b"a", b"Z", b" ", "é".encode(), "日".encode(), "\U0001F600".encode(), b"'", b"/", b"\x00", "\ufeff".encode()]
         guard = 0
         while remaining > 0 and guard < 1000:
             guard += 1
